@@ -1,0 +1,43 @@
+//go:build verif
+
+// Contracts for the verification harness in /verif (comment-only; this file
+// contains no executable code and is compiled only with the verif tag).
+
+package qids
+
+// ---- C20: the QID mapper gives each source path one distinct path for good ----
+//
+// PathGenerator: a counter; every NewPath is above everything handed out
+// before (wrap-around after 2^64-1 paths is excluded by precondition).
+//@ func (*PathGenerator).NewPath
+//@   requires[C20] @no-wrap g.uids < 18446744073709551615
+//@   modifies g.uids
+//@   ensures[C20] @fresh result == old(g.uids) + 1 && g.uids == result
+//@   nopanic
+//
+// Mapper invariant: every recorded path was handed out by the generator
+// (1 <= path <= g.uids) and no two source paths share one.
+//@ define Imapper(m *Mapper) bool = m.g != nil && forall(a, uint64, has(m.paths, a) ==> 1 <= m.paths[a] && m.paths[a] <= m.g.uids) && forall(a, uint64, forall(b, uint64, has(m.paths, a) && has(m.paths, b) && a != b ==> m.paths[a] != m.paths[b]))
+//
+// The map is shared by concurrent requests: every access holds the mutex
+// (finding F8 before the fix: there was none).
+//@ guard Mapper.paths[C20,C16] read held(r.mu) == -1 write held(r.mu) == -1
+//
+//@ func (*Mapper).QIDFor
+//@   requires[C20,C16] held(m.mu) == 0
+//@   requires[C20] Imapper(m)
+//@   requires[C20] @no-wrap m.g.uids < 18446744073709551615
+//@   modifies mapof(m.paths), type:PathGenerator.uids
+//@   ensures[C20] Imapper(m)
+//@   ensures[C20] @stable old(has(m.paths, q.Path)) ==> result.Path == old(m.paths[q.Path]) && m.g.uids == old(m.g.uids)
+//@   ensures[C20] @recorded has(m.paths, q.Path) && m.paths[q.Path] == result.Path
+//@   ensures[C20] @fresh-for-new-source !old(has(m.paths, q.Path)) ==> result.Path == old(m.g.uids) + 1
+//@   ensures[C20] @others-untouched forall(a, uint64, a != q.Path ==> has(m.paths, a) == old(has(m.paths, a)) && m.paths[a] == old(m.paths[a]))
+//@   ensures[C20] @type-and-version-kept result.Type == q.Type && result.Version == q.Version
+//@   ensures[C20,C16] samelocks()
+//@   nopanic
+//
+//@ func NewMapper
+//@   requires[C20] g != nil
+//@   ensures[C20] result != nil && Imapper(result)
+//@   nopanic
